@@ -18,7 +18,6 @@ RULE = ("one DefaultApplicationConfig application run on every sequence of 2 (qu
         "every doubled path p, all sequences of 2 / 3 lines of the pool of those paths, random histories; every handler is tagged with "
         "the position of its configuration (which sibling ran is observed), the effective leniency of every configuration after the "
         "history is compared with a fresh application; an enabled top-level twin is refused by both sides")
-THEOREMS = ["runs_independent", "leniency_restored", "styles_independent"]
 TRUSTED = ["'rendering twice gives identical output' is trivially true of a functional model: carried by the correspondence run (testing)"]
 ASSUMPTIONS = []
 
